@@ -1,5 +1,571 @@
 package main
 
-func cmdCheck(args []string) int    { return 2 }
-func cmdReplay(args []string) int   { return 2 }
+import (
+	"bytes"
+	"encoding/json"
+	"fmt"
+	"os"
+	"os/exec"
+	"path/filepath"
+	"runtime"
+	"sort"
+	"strconv"
+	"strings"
+	"time"
+
+	"gosx/sx"
+)
+
+// Run describes one harness run of a property.
+type Run struct {
+	Dir string // harness directory under /verif/harness
+	Pkg string // repo-relative package
+	Fn  string
+	// per tier: index 0 quick, 1 thorough
+	P        [2]int
+	Ticks    [2]int
+	SwitchOn []string
+	MaxSteps int
+	Bounds   [2]map[string]int
+	Needs    []string // vacuity witnesses that must be reached
+	TimeBudgetS [2]int
+}
+
+type Property struct {
+	ID          string
+	Runs        []Run
+	Assumptions []string
+	OutsideClaim []string
+}
+
+type KnownFinding struct {
+	State    string            `json:"state"` // known | fixed
+	Property string            `json:"property"`
+	Harness  string            `json:"harness"`
+	Verdict  string            `json:"verdict"`
+	Label    string            `json:"label"`
+	Site     string            `json:"site,omitempty"`
+	When     map[string]string `json:"when,omitempty"`
+	What     string            `json:"what"`
+	Commit   string            `json:"commit,omitempty"`
+	ID       string            `json:"id,omitempty"`
+}
+
+func loadKnown() []KnownFinding {
+	b, err := os.ReadFile(filepath.Join(verifDir, "known_findings.json"))
+	if err != nil {
+		return nil
+	}
+	var k []KnownFinding
+	if err := json.Unmarshal(b, &k); err != nil {
+		fmt.Fprintln(os.Stderr, "known_findings.json:", err)
+		return nil
+	}
+	return k
+}
+
+func matchKnown(k []KnownFinding, prop string, v *sx.Violation) *KnownFinding {
+	for i := range k {
+		e := &k[i]
+		if e.State != "known" || e.Property != prop || e.Harness != v.Harness || e.Verdict != v.Kind || e.Label != v.Label {
+			continue
+		}
+		if e.Site != "" && e.Site != v.Facts["site"] {
+			continue
+		}
+		okAll := true
+		for key, val := range e.When {
+			if v.Facts[key] != val {
+				okAll = false
+				break
+			}
+		}
+		if okAll {
+			return e
+		}
+	}
+	return nil
+}
+
+type cexFile struct {
+	Property  string            `json:"property"`
+	Harness   string            `json:"harness"`
+	Dir       string            `json:"dir"`
+	Pkg       string            `json:"pkg"`
+	Kind      string            `json:"kind"`
+	Label     string            `json:"label"`
+	Msg       string            `json:"msg"`
+	Where     string            `json:"where"`
+	Model     map[string]int64  `json:"model"`
+	Choices   map[string]int64  `json:"choices"`
+	Facts     map[string]string `json:"facts"`
+	Trace     []string          `json:"trace"`
+	Decisions []int64           `json:"decisions"`
+	Tier      string            `json:"tier"`
+}
+
+func cmdCheck(args []string) int {
+	if len(args) < 2 {
+		fmt.Fprintln(os.Stderr, "usage: gosx check <Cxx> quick|thorough")
+		return 2
+	}
+	id, tier := args[0], args[1]
+	ti := 0
+	if tier == "thorough" {
+		ti = 1
+	} else if tier != "quick" {
+		fmt.Fprintln(os.Stderr, "tier must be quick or thorough")
+		return 2
+	}
+	prop, ok := properties[id]
+	if !ok {
+		fmt.Fprintln(os.Stderr, "no check registered for", id)
+		return 2
+	}
+	seed, _ := strconv.Atoi(os.Getenv("VERIF_SEED"))
+	start := time.Now()
+	outDir := filepath.Join(verifDir, "out", id)
+	os.RemoveAll(outDir)
+	os.MkdirAll(outDir, 0o755)
+	os.MkdirAll(filepath.Join(verifDir, "evidence"), 0o755)
+
+	dirSet := map[string]bool{}
+	var dirs []string
+	for _, r := range prop.Runs {
+		if !dirSet[r.Dir] {
+			dirSet[r.Dir] = true
+			dirs = append(dirs, r.Dir)
+		}
+	}
+	ev := newEvidence(id, tier, seed)
+	prog, lst, _, err := loadProgram(dirs)
+	if err != nil {
+		fmt.Println("INCONCLUSIVE: cannot load /repo with the harness overlay:", err)
+		ev.Inconclusive = append(ev.Inconclusive, "load: "+err.Error())
+		ev.write(time.Since(start).Seconds(), 0)
+		return 2
+	}
+	ev.LoadS = lst.LoadS + lst.BuildS
+	known := loadKnown()
+
+	workers := runtime.NumCPU()
+	if w, err := strconv.Atoi(os.Getenv("VERIF_WORKERS")); err == nil && w > 0 {
+		workers = w
+	}
+	exit := 0
+	nViol := 0
+	replayN := 0
+	for _, r := range prop.Runs {
+		entry, err := findEntry(prog, r.Pkg, r.Fn)
+		if err != nil {
+			fmt.Println("INCONCLUSIVE:", err)
+			ev.Inconclusive = append(ev.Inconclusive, err.Error())
+			exit = 2
+			continue
+		}
+		maxSteps := r.MaxSteps
+		if maxSteps == 0 {
+			maxSteps = 3_000_000
+		}
+		cfg := &sx.Config{Harness: r.Fn, Tier: tier, MaxSteps: maxSteps, Preemptions: r.P[ti], Ticks: r.Ticks[ti], SwitchOn: map[string]bool{}, Bounds: map[string]int{}}
+		for _, s := range r.SwitchOn {
+			cfg.SwitchOn[s] = true
+		}
+		for k, v := range r.Bounds[ti] {
+			cfg.Bounds[k] = v
+		}
+		ex := &sx.Explorer{P: prog, Cfg: cfg, Entry: entry, Workers: workers, SolverKind: "z3", TimeoutMS: 20000}
+		if r.TimeBudgetS[ti] > 0 {
+			ex.Deadline = time.Now().Add(time.Duration(r.TimeBudgetS[ti]) * time.Second)
+		}
+		rep := ex.Run()
+		fmt.Printf("[%s %s] %s: paths=%d done=%d faults=%d dropped=%d cut=%d truncated=%d unsupported=%d queries=%d (unsat %d sat %d unknown %d) asserts=%d solver=%.1fs wall=%.1fs\n",
+			id, tier, r.Fn, rep.Paths, rep.Done, rep.Faults, rep.Dropped, rep.Cut, rep.Truncated, rep.Unsupported, rep.Queries, rep.NUnsat, rep.NSat, rep.NUnknown, rep.Asserts, rep.SolverS, rep.WallS)
+		ev.addReport(&r, rep, cfg)
+
+		// inconclusive conditions
+		if rep.Unsupported > 0 {
+			for m, n := range rep.UnsupportedMsgs {
+				fmt.Printf("INCONCLUSIVE: %d path(s) left the encodable fragment: %s\n", n, trunc(m, 400))
+			}
+			exit = max(exit, 2)
+		}
+		if rep.Truncated > 0 {
+			for m, n := range rep.TruncatedMsgs {
+				fmt.Printf("INCONCLUSIVE: %d path(s) hit an unwinding limit: %s\n", n, m)
+			}
+			exit = max(exit, 2)
+		}
+		if rep.Aborted != "" {
+			fmt.Println("INCONCLUSIVE: exploration stopped early:", rep.Aborted)
+			exit = max(exit, 2)
+		}
+		if rep.NUnknown > 0 || len(rep.SolverErrors) > 0 {
+			fmt.Printf("INCONCLUSIVE: solver returned unknown/error on %d queries %v\n", rep.NUnknown, rep.SolverErrors)
+			exit = max(exit, 2)
+		}
+		for _, w := range r.Needs {
+			if rep.Reached[w] == 0 {
+				fmt.Printf("INCONCLUSIVE: vacuity witness %q was not reached by any feasible path of %s\n", w, r.Fn)
+				ev.Inconclusive = append(ev.Inconclusive, "witness not reached: "+w)
+				exit = max(exit, 2)
+			}
+		}
+
+		// violations: known findings, then replay
+		groups := map[string][]*sx.Violation{}
+		var order []string
+		for _, v := range rep.Violations {
+			gk := v.Kind + "|" + v.Label + "|" + v.Facts["site"]
+			if _, ok := groups[gk]; !ok {
+				order = append(order, gk)
+			}
+			groups[gk] = append(groups[gk], v)
+		}
+		for _, gk := range order {
+			vs := groups[gk]
+			var unlisted []*sx.Violation
+			knownHit := map[string]*KnownFinding{}
+			for _, v := range vs {
+				if k := matchKnown(known, id, v); k != nil {
+					knownHit[k.What] = k
+				} else {
+					unlisted = append(unlisted, v)
+				}
+			}
+			for _, k := range knownHit {
+				fmt.Printf("KNOWN-FINDING: property=%s %s\n", id, k.What)
+				ev.KnownFindings = append(ev.KnownFindings, k.What)
+			}
+			if len(unlisted) == 0 {
+				continue
+			}
+			// replay up to 3 representatives of the group against the real build
+			confirmed := false
+			var firstScript string
+			tries := unlisted
+			if len(tries) > 3 {
+				tries = tries[:3]
+			}
+			for _, v := range tries {
+				replayN++
+				cf := &cexFile{Property: id, Harness: r.Fn, Dir: r.Dir, Pkg: r.Pkg, Kind: v.Kind, Label: v.Label, Msg: v.Msg, Where: v.Where,
+					Model: v.Model, Choices: v.Choices, Facts: v.Facts, Trace: v.Trace, Decisions: v.Decisions, Tier: tier}
+				cexPath := filepath.Join(outDir, fmt.Sprintf("cex-%d.json", replayN))
+				b, _ := json.MarshalIndent(cf, "", " ")
+				os.WriteFile(cexPath, b, 0o644)
+				script := filepath.Join(outDir, fmt.Sprintf("replay-%d.sh", replayN))
+				os.WriteFile(script, []byte(fmt.Sprintf("#!/bin/sh\n# replays %s (%s: %s) against the real build\nexec %s replay %s\n", id, v.Kind, v.Label, filepath.Join(verifDir, "bin/gosx"), cexPath)), 0o755)
+				if firstScript == "" {
+					firstScript = script
+				}
+				res := replayCex(cf, cexPath, outDir)
+				ev.Replays = append(ev.Replays, map[string]any{"label": v.Label, "kind": v.Kind, "reproduced": res.Reproduced, "detail": trunc(res.Detail, 300)})
+				if res.Reproduced {
+					confirmed = true
+					nViol++
+					fmt.Printf("  counterexample (%s) %q at %s\n    model: %s\n    facts: %v\n    native replay: %s\n", v.Kind, v.Label, v.Where, modelString(v.Model), v.Facts, trunc(res.Detail, 300))
+					fmt.Printf("VIOLATION property=%s replay=%s\n", id, script)
+					exit = max(exit, 1)
+					if exit == 2 {
+						exit = 1
+					}
+					break
+				}
+				fmt.Printf("  UNCONFIRMED counterexample (%s) %q: native replay did not reproduce it: %s\n", v.Kind, v.Label, trunc(res.Detail, 500))
+			}
+			if !confirmed {
+				ev.Unconfirmed = append(ev.Unconfirmed, gk)
+				fmt.Printf("INCONCLUSIVE: solver counterexample %q could not be reproduced natively (encoding or stub defect to fix); see %s\n", gk, firstScript)
+				if exit == 0 {
+					exit = 2
+				}
+			}
+		}
+	}
+	// a reproduced violation dominates inconclusive conditions
+	if nViol > 0 {
+		exit = 1
+	}
+	ev.write(time.Since(start).Seconds(), nViol)
+	switch exit {
+	case 0:
+		fmt.Printf("PASS property=%s tier=%s (%.1fs)\n", id, tier, time.Since(start).Seconds())
+	case 2:
+		fmt.Printf("INCONCLUSIVE property=%s tier=%s (%.1fs)\n", id, tier, time.Since(start).Seconds())
+	}
+	return exit
+}
+
+func modelString(m map[string]int64) string {
+	var ks []string
+	for k := range m {
+		ks = append(ks, k)
+	}
+	sort.Strings(ks)
+	var sb strings.Builder
+	for i, k := range ks {
+		if i > 0 {
+			sb.WriteString(" ")
+		}
+		if i > 30 {
+			sb.WriteString("...")
+			break
+		}
+		fmt.Fprintf(&sb, "%s=%d", k, m[k])
+	}
+	return sb.String()
+}
+
+// ---------- native replay ----------
+
+type replayResult struct {
+	Reproduced bool
+	Detail     string
+}
+
+const replayTestTmpl = `package %s
+
+import (
+	"fmt"
+	"os"
+	"runtime"
+	"testing"
+	"time"
+
+	"github.com/element-of-surprise/coercion/internal/zzverif/api"
+)
+
+func TestVerifReplay(t *testing.T) {
+	hs := map[string]func(){%s}
+	h := hs[os.Getenv("VERIF_HARNESS")]
+	if h == nil {
+		t.Fatalf("unknown harness %%q", os.Getenv("VERIF_HARNESS"))
+	}
+	type out struct {
+		f []string
+		s string
+		p any
+	}
+	ch := make(chan out, 1)
+	go func() {
+		f, s, p := api.Run(h)
+		ch <- out{f, s, p}
+	}()
+	select {
+	case o := <-ch:
+		fmt.Printf("VERIF-REPLAY failures=%%q skipped=%%q panic=%%v\n", o.f, o.s, o.p)
+		if o.p != nil {
+			fmt.Printf("VERIF-REPLAY-PANIC %%v\n", o.p)
+		}
+	case <-time.After(8 * time.Second):
+		buf := make([]byte, 1<<20)
+		n := runtime.Stack(buf, true)
+		fmt.Printf("VERIF-REPLAY hang\n%%s\n", buf[:n])
+	}
+}
+`
+
+// harnessFuncs lists the exported Verif* functions declared in the (non-test) harness files of dir that target pkg.
+func harnessFuncs(dir, pkg string) (pkgName string, fns []string) {
+	files, _ := filepath.Glob(filepath.Join(verifDir, "harness", dir, "*.go"))
+	for _, f := range files {
+		if strings.HasSuffix(f, "_test.go") {
+			continue
+		}
+		b, _ := os.ReadFile(f)
+		src := string(b)
+		rel := ""
+		for _, line := range strings.Split(src, "\n") {
+			if strings.HasPrefix(line, "//verif:package ") {
+				rel = strings.TrimSpace(strings.TrimPrefix(line, "//verif:package "))
+			}
+			if strings.HasPrefix(line, "package ") && pkgName == "" && (rel == pkg || (rel == "." && pkg == "")) {
+				pkgName = strings.TrimSpace(strings.TrimPrefix(line, "package "))
+			}
+		}
+		if rel != pkg && !(rel == "." && pkg == "") {
+			continue
+		}
+		for _, line := range strings.Split(src, "\n") {
+			if strings.HasPrefix(line, "func Verif") {
+				name := strings.TrimPrefix(line, "func ")
+				if i := strings.Index(name, "("); i > 0 {
+					fns = append(fns, name[:i])
+				}
+			}
+		}
+	}
+	return
+}
+
+// buildReplayBinary compiles the harness package's test binary natively with the overlay.
+func buildReplayBinary(dir, pkg, outDir string) (string, error) {
+	bin := filepath.Join(outDir, "replay_"+strings.ReplaceAll(dir+"_"+pkg, "/", "_")+".test")
+	if _, err := os.Stat(bin); err == nil {
+		return bin, nil
+	}
+	ov, _, v2r, err := buildOverlay([]string{dir})
+	if err != nil {
+		return "", err
+	}
+	_ = ov
+	pkgName, fns := harnessFuncs(dir, pkg)
+	if pkgName == "" {
+		return "", fmt.Errorf("no harness file for package %q in %s", pkg, dir)
+	}
+	var ents []string
+	for _, f := range fns {
+		ents = append(ents, fmt.Sprintf("%q: %s", f, f))
+	}
+	testSrc := fmt.Sprintf(replayTestTmpl, pkgName, strings.Join(ents, ", "))
+	testReal := filepath.Join(outDir, "zz_verif_replay_"+strings.ReplaceAll(dir+"_"+pkg, "/", "_")+"_test.go")
+	if err := os.WriteFile(testReal, []byte(testSrc), 0o644); err != nil {
+		return "", err
+	}
+	repl := map[string]string{}
+	for v, r := range v2r {
+		repl[v] = r
+	}
+	repl[filepath.Join(repoDir, pkg, "zz_verif_replay_test.go")] = testReal
+	ovb, _ := json.Marshal(map[string]any{"Replace": repl})
+	ovPath := filepath.Join(outDir, "overlay_"+strings.ReplaceAll(dir+"_"+pkg, "/", "_")+".json")
+	os.WriteFile(ovPath, ovb, 0o644)
+	target := "./" + pkg
+	if pkg == "" {
+		target = "."
+	}
+	cmd := exec.Command("go", "test", "-c", "-vet=off", "-overlay", ovPath, "-o", bin, target)
+	cmd.Dir = repoDir
+	cmd.Env = append(cleanGoEnv(), "GOFLAGS=-mod=mod", "GOPROXY=off")
+	var buf bytes.Buffer
+	cmd.Stdout, cmd.Stderr = &buf, &buf
+	if err := cmd.Run(); err != nil {
+		return "", fmt.Errorf("native build of the harness failed: %v\n%s", err, trunc(buf.String(), 2000))
+	}
+	return bin, nil
+}
+
+func cleanGoEnv() []string {
+	var out []string
+	for _, e := range os.Environ() {
+		if strings.HasPrefix(e, "GOFLAGS=") || strings.HasPrefix(e, "GOPROXY=") || strings.HasPrefix(e, "GOSUMDB=") || strings.HasPrefix(e, "GOTOOLCHAIN=") {
+			continue
+		}
+		out = append(out, e)
+	}
+	return out
+}
+
+func replayCex(cf *cexFile, cexPath, outDir string) replayResult {
+	bin, err := buildReplayBinary(cf.Dir, cf.Pkg, outDir)
+	if err != nil {
+		return replayResult{Detail: err.Error()}
+	}
+	attempts := 1
+	if len(cf.Trace) > 0 {
+		attempts = 5
+	}
+	var last string
+	for i := 0; i < attempts; i++ {
+		cmd := exec.Command(bin, "-test.run", "^TestVerifReplay$", "-test.count=1", "-test.timeout=60s")
+		cmd.Dir = filepath.Join(repoDir, cf.Pkg)
+		cmd.Env = append(os.Environ(), "VERIF_MODEL="+cexPath, "VERIF_HARNESS="+cf.Harness, "VERIF_TIER="+cf.Tier)
+		var buf bytes.Buffer
+		cmd.Stdout, cmd.Stderr = &buf, &buf
+		done := make(chan error, 1)
+		cmd.Start()
+		go func() { done <- cmd.Wait() }()
+		var runErr error
+		select {
+		case runErr = <-done:
+		case <-time.After(90 * time.Second):
+			cmd.Process.Kill()
+			runErr = fmt.Errorf("timeout")
+		}
+		out := buf.String()
+		last = out
+		line := ""
+		for _, l := range strings.Split(out, "\n") {
+			if strings.HasPrefix(l, "VERIF-REPLAY") {
+				line = l
+				break
+			}
+		}
+		switch cf.Kind {
+		case "assert":
+			if strings.Contains(line, "failures=") && strings.Contains(line, strconv.Quote(cf.Label)) {
+				return replayResult{Reproduced: true, Detail: line}
+			}
+		case "panic":
+			if strings.Contains(line, "panic=") && !strings.Contains(line, "panic=<nil>") {
+				return replayResult{Reproduced: true, Detail: line}
+			}
+			if line == "" && strings.Contains(out, "panic:") {
+				return replayResult{Reproduced: true, Detail: firstLines(out, "panic:", 3)}
+			}
+		case "deadlock":
+			if strings.HasPrefix(line, "VERIF-REPLAY hang") {
+				site := cf.Facts["site"]
+				short := site
+				if i := strings.LastIndex(site, "/"); i >= 0 {
+					short = site[i+1:]
+				}
+				short = strings.NewReplacer("(", "", ")", "", "*", "").Replace(short)
+				if site == "" || strings.Contains(strings.NewReplacer("(", "", ")", "", "*", "").Replace(out), short) {
+					return replayResult{Reproduced: true, Detail: "harness did not return within 8s; a goroutine is parked in " + site}
+				}
+				return replayResult{Reproduced: true, Detail: "harness did not return within 8s"}
+			}
+		case "fatal":
+			if line == "" && runErr != nil && !strings.Contains(out, "panic:") {
+				return replayResult{Reproduced: true, Detail: "process exited: " + firstLines(out, "", 2)}
+			}
+		}
+		if strings.Contains(line, "skipped=\"assumption") {
+			last = "assumption failed natively under the model: " + line
+		}
+	}
+	return replayResult{Detail: trunc(last, 1500)}
+}
+
+func firstLines(s, from string, n int) string {
+	if from != "" {
+		if i := strings.Index(s, from); i >= 0 {
+			s = s[i:]
+		}
+	}
+	ls := strings.Split(s, "\n")
+	if len(ls) > n {
+		ls = ls[:n]
+	}
+	return strings.Join(ls, " | ")
+}
+
+func cmdReplay(args []string) int {
+	if len(args) < 1 {
+		fmt.Fprintln(os.Stderr, "usage: gosx replay <cex.json>")
+		return 2
+	}
+	b, err := os.ReadFile(args[0])
+	if err != nil {
+		fmt.Fprintln(os.Stderr, err)
+		return 2
+	}
+	var cf cexFile
+	if err := json.Unmarshal(b, &cf); err != nil {
+		fmt.Fprintln(os.Stderr, err)
+		return 2
+	}
+	outDir := filepath.Dir(args[0])
+	res := replayCex(&cf, args[0], outDir)
+	fmt.Printf("property=%s harness=%s %s %q\nmodel: %s\nfacts: %v\n", cf.Property, cf.Harness, cf.Kind, cf.Label, modelString(cf.Model), cf.Facts)
+	if res.Reproduced {
+		fmt.Println("REPRODUCED against the real build:", res.Detail)
+		return 1
+	}
+	fmt.Println("NOT REPRODUCED:", res.Detail)
+	return 0
+}
+
 func cmdSelftest(args []string) int { return 2 }
